@@ -179,7 +179,7 @@ func namesRunMessage(c *Ctx, m *namesMsg) bool {
 		switch {
 		case strings.Contains(r, "method:ProtoReflect"):
 			c.Stat("unique_dup_protoreflect")
-			c.Known("F15", "C42", "field named ProtoReflect: struct field and method ProtoReflect() of the same type ("+r+")")
+			c.Known("FH1", "C42", "field named ProtoReflect: struct field and method ProtoReflect() of the same type ("+r+")")
 		case !getterFree:
 			c.Stat("unique_dup_F12")
 			c.Known("F12", "C42", "a oneof's getter name is also a Go name: "+d+" ("+r+")")
@@ -243,7 +243,7 @@ func namesRunMessage(c *Ctx, m *namesMsg) bool {
 			// documented in newMessage as incomplete: wrapper types are only
 			// compared with nested messages and enums
 			c.Stat("unique_dup_wrapper")
-			c.Known("F16", "C42", "oneof wrapper type name collides with another wrapper or an enum value: "+d+" ("+r+")")
+			c.Known("FH2", "C42", "oneof wrapper type name collides with another wrapper or an enum value: "+d+" ("+r+")")
 		default:
 			c.PropFail("C42", "duplicate package-level identifier "+d+" ("+r+")", m.String())
 		}
@@ -462,7 +462,7 @@ func namesOpaque(c *Ctx, m *namesMsg) {
 					f18 = true
 				}
 			}
-			// F19: a oneof and another oneof or field with the same camel-cased name
+			// FH5: a oneof and another oneof or field with the same camel-cased name
 			// (only field/field collisions get a _<number> suffix)
 			f19, hasOneof, camel := true, false, ""
 			for _, x := range rl[d] {
@@ -482,12 +482,12 @@ func namesOpaque(c *Ctx, m *namesMsg) {
 			}
 			if f19 && hasOneof && !f18 {
 				c.Stat("opaque_dup_F19")
-				c.Known("F19", "C42", "opaque API: a oneof and another oneof or field have the same camel-cased name: "+d+" ("+r+")")
+				c.Known("FH5", "C42", "opaque API: a oneof and another oneof or field have the same camel-cased name: "+d+" ("+r+")")
 				continue
 			}
 			if f18 {
 				c.Stat("opaque_dup_F18")
-				c.Known("F18", "C42", "opaque API: the _<number> suffix of resolveCamelCaseConflicts collides with another field: "+d+" ("+r+")")
+				c.Known("FH4", "C42", "opaque API: the _<number> suffix of resolveCamelCaseConflicts collides with another field: "+d+" ("+r+")")
 			} else {
 				c.PropFail("C42", "opaque API: duplicate "+kind+" "+d+" ("+r+")", m.String())
 			}
@@ -564,7 +564,7 @@ func namesUniqueCorpus(c *Ctx) {
 		namesMk([]string{"x", "X", "get_x", "GetX", "x_"}, []int{-1, -1, -1, -1, -1}, nil),
 		namesMk([]string{"reset", "string", "proto_message", "descriptor", "marshal", "get_reset", "Reset"}, []int{-1, -1, -1, -1, -1, -1, -1}, nil),
 		namesMk([]string{"_x", "X_x", "xx"}, []int{-1, -1, -1}, nil),
-		// F15: ProtoReflect is a method of every message but not a reserved name
+		// FH1: ProtoReflect is a method of every message but not a reserved name
 		namesMk([]string{"proto_reflect"}, []int{-1}, nil),
 		namesMk([]string{"a", "b"}, []int{0, 0}, []string{"reset"}),
 		namesMk([]string{"a", "b", "get_o"}, []int{0, 0, -1}, []string{"o"}),
@@ -573,7 +573,7 @@ func namesUniqueCorpus(c *Ctx) {
 		{fields: []string{"foo"}, oneofOf: []int{0}, oneofs: []string{"o"}, synth: []bool{false}, enums: []string{"E"}, values: [][]string{{"Foo"}}},
 	}
 	corpus = append(corpus,
-		// F18: _foo and X_foo get the suffixes _1 and _2; x_foo_2 is XFoo_2 already
+		// FH4: _foo and X_foo get the suffixes _1 and _2; x_foo_2 is XFoo_2 already
 		namesMk([]string{"_foo", "X_foo", "x_foo_2"}, []int{-1, -1, -1}, nil),
 		namesMk([]string{"_foo", "X_foo", "XFoo"}, []int{-1, -1, -1}, nil),
 		namesMk([]string{"build", "Build", "build_"}, []int{-1, -1, -1}, nil),
